@@ -605,6 +605,7 @@ class FloatArrayDescriptor(BasicDescriptor):
                  docstring=None):
 
         self.child_tag = tag_dict[name]['child_tag']
+        self.size_attribute = tag_dict[name].get('size_attribute', 'size')
         self.minimum_length = self._DEFAULT_MIN_LENGTH if minimum_length is None else int(minimum_length)
         self.maximum_length = self._DEFAULT_MAX_LENGTH if maximum_length is None else int(maximum_length)
         if self.minimum_length > self.maximum_length:
@@ -647,7 +648,7 @@ class FloatArrayDescriptor(BasicDescriptor):
             else:
                 xml_ns_key = getattr(instance, '_xml_ns_key', None)
 
-            size = int(value.attrib['size'])
+            size = int(value.attrib[self.size_attribute])
             child_nodes = find_children(value, self.child_tag, xml_ns, xml_ns_key)
             if len(child_nodes) != size:
                 raise ValueError(
